@@ -124,7 +124,7 @@ theorem invB_wkStep {s s' : St} {i : Nat} (h : InvB s) (hs : s' ∈ wkStep s i) 
       have hb := invB_setObj (i := i) (w' := { s.objs i with pc := .cl }) h rfl rfl
           (by intro h'; simp [Wk.counted] at h') (by intro h'; simp at h')
       split at hs
-      · simp only [List.mem_singleton] at hs; subst hs; exact hb
+      · simp only [List.mem_singleton] at hs; subst hs; exact invB_congr hb rfl rfl rfl
       · simp only [List.mem_singleton] at hs; subst hs; exact invB_congr hb rfl rfl rfl
     | cl =>
       simp only [hpc, List.mem_singleton] at hs
